@@ -812,13 +812,137 @@ func ruleCommitMarksWindow(c *Ctx, r *Report) {
 				if len(wl.Returns) == 0 {
 					reportsAccept = false
 				}
+				// the detector said no: the result is no on every path. The detector said yes:
+				// the result can be yes (a further condition - the record's epoch is not one the
+				// peer has left behind - may narrow it, never widen it)
+				canBeTrue := false
 				for _, ro := range wl.Returns {
-					if len(ro.Vals) != 1 || ro.Vals[0].Kind != 1 || ro.Vals[0].B != ans {
+					if len(ro.Vals) != 1 {
 						reportsAccept = false
+						continue
+					}
+					definitelyFalse := ro.Vals[0].Kind == 1 && !ro.Vals[0].B
+					if !ans && !definitelyFalse {
+						reportsAccept = false
+					}
+					if ans && !definitelyFalse {
+						canBeTrue = true
+					}
+				}
+				if ans && !canBeTrue {
+					reportsAccept = false
+				}
+			}
+			r.Check(reportsAccept, "commit-reports-latest", key, c.ipos(ret), "the commit function never reports a record as newest that the detector did not, and can report one that it did", "the commit function's result does not follow the detector's answer: a record the detector did not call the newest is reported as newest (or none ever is), which is what gates path challenges and the switch of the peer address")
+			// one detector per epoch: "newest" must also mean "of an epoch the peer has not left
+			// behind" (RFC 9146 section 6: newer in both epoch and sequence number). With every
+			// comparison of the record's epoch against the connection's remote epoch answering
+			// "older", the commit function never reports the record as newest
+			perEpoch := false
+			{
+				var recv ssa.Value = call.Call.Value
+				if call.Call.IsInvoke() {
+					recv = call.Call.Value
+				} else if len(call.Call.Args) > 0 {
+					recv = call.Call.Args[0]
+				}
+				for _, l := range append(c.Origins(recv, 0), recv) {
+					x := l
+					if u, ok := x.(*ssa.UnOp); ok {
+						x = u.X
+					}
+					if ia, ok := x.(*ssa.IndexAddr); ok {
+						if _, isK := ia.Index.(*ssa.Const); !isK {
+							if _, f, _, ok := fieldLoad(ia.X); ok && f == "ReplayDetector" {
+								perEpoch = true
+							}
+						}
 					}
 				}
 			}
-			r.Check(reportsAccept, "commit-reports-latest", key, c.ipos(ret), "the commit function returns what the detector's accept function returned", "the commit function's result is not the detector's answer: every accepted record is reported as (or never as) the newest one, which is what gates path challenges and the switch of the peer address")
+			if perEpoch {
+				matched := 0
+				isRemoteEpoch := func(v ssa.Value) bool {
+					v = stripConv(v)
+					if cl, ok := v.(*ssa.Call); ok && strings.HasSuffix(calleeName(&cl.Call), ".RemoteEpoch") {
+						return true
+					}
+					_, f, _, ok := fieldLoad(v)
+					return ok && (f == "remoteEpoch" || f == "RemoteEpoch")
+				}
+				isRecordEpoch := func(v ssa.Value) bool {
+					v = stripConv(v)
+					if u, ok := v.(*ssa.UnOp); ok && u.Op == token.MUL {
+						v = u.X
+					}
+					fvv, ok := v.(*ssa.FreeVar)
+					if !ok {
+						return false
+					}
+					for i, fvx := range lit.FreeVars {
+						if fvx == fvv && i < len(mc.Bindings) {
+							b := mc.Bindings[i]
+							if al, isAl := b.(*ssa.Alloc); isAl {
+								for _, ref := range *al.Referrers() {
+									if st, isSt := ref.(*ssa.Store); isSt && st.Addr == ssa.Value(al) {
+										b = st.Val
+									}
+								}
+							}
+							p, isP := b.(*ssa.Parameter)
+							return isP && strings.Contains(strings.ToLower(p.Name()), "epoch")
+						}
+					}
+					return false
+				}
+				ws := (&Walk{Fn: lit, Follow: func(f *ssa.Function) bool { return false }, Assume: func(v ssa.Value) (Val, bool) {
+					for _, ac := range acceptCalls {
+						if v == ac {
+							return vBool(true), true
+						}
+					}
+					bo, ok := v.(*ssa.BinOp)
+					if !ok {
+						return unknown, false
+					}
+					var epochLeft bool
+					switch {
+					case isRecordEpoch(bo.X) && isRemoteEpoch(bo.Y):
+						epochLeft = true
+					case isRemoteEpoch(bo.X) && isRecordEpoch(bo.Y):
+						epochLeft = false
+					default:
+						return unknown, false
+					}
+					// record epoch < remote epoch
+					var val bool
+					switch bo.Op {
+					case token.LSS, token.LEQ:
+						val = epochLeft
+					case token.GTR, token.GEQ:
+						val = !epochLeft
+					case token.EQL:
+						val = false
+					case token.NEQ:
+						val = true
+					default:
+						return unknown, false
+					}
+					matched++
+					return vBool(val), true
+				}}).FromEntry()
+				stale := ""
+				for _, ro := range ws.Returns {
+					if len(ro.Vals) == 1 && !(ro.Vals[0].Kind == 1 && !ro.Vals[0].B) {
+						stale = c.ipos(ro.Ret)
+					}
+				}
+				if matched == 0 {
+					r.Bad("commit-reports-latest", key+":stale-epoch", c.ipos(ret), "with one replay detector per epoch the commit function reports the highest number of any epoch as the newest record, and never compares the record's epoch with the connection's remote epoch: a captured record of an epoch the peer has left behind, replayed from another address, nominates that address for a path challenge")
+				} else {
+					r.Check(stale == "", "commit-reports-latest", key+":stale-epoch", c.ipos(ret), "a record of an epoch the peer has left behind is never reported as newest", "a record whose epoch is older than the connection's remote epoch can still be reported as the newest one ("+stale+")")
+				}
+			}
 			w := &Walk{Fn: lit, Visit: func(in ssa.Instruction, _ Env) bool { return !isAcceptCall(in) }}
 			w.FromEntry()
 			r.Check(len(w.Returns) == 0, rule, key, c.ipos(ret), "every path of the commit function marks the sequence number in the detector", "the commit function can return without calling the detector's accept function: a record delivered on that path is not marked as received and every duplicate of it inside the window is delivered again")
